@@ -212,6 +212,20 @@ func findBit(bytes []byte, startIndex, endIndex, width int, searchBit, noEnd boo
 	bits := len(bytes) * 8
 	end := bits - 1
 
+	// an index beyond the string in either direction means the same as the nearest one just outside
+	// of it; clamping first keeps the conversion to bit offsets from overflowing
+	units := bits / width
+	clamp := func(index int) int {
+		if index > units {
+			return units
+		}
+		if index < -units-1 {
+			return -units - 1
+		}
+		return index
+	}
+	startIndex, endIndex = clamp(startIndex), clamp(endIndex)
+
 	// convert to bits and determine negative offsets
 	var startBit, endBit int
 	if startIndex < 0 {
